@@ -146,7 +146,12 @@ def push_yield_rule(run, f, rid):
         ok = False
         if len(pf) == 1:
             vs = backward(b, pf[0][1]["args"][1], du, at=(pf[0][0], "term"), through_calls="none")
-            ok = {b.name_of(p_) for p_ in vs.params} == {"timestamp"} and not vs.binops()
+            # the wake-up time is until_with's only u64 parameter (told by its type, not by its name or position)
+            def _ty(l_):
+                t_ = b.locals[l_] if l_ < len(b.locals) else None
+                return t_.get("ty") if isinstance(t_, dict) else t_
+            u64s = {l_ for l_ in range(1, b.argc + 1) if _ty(l_) == "u64"}
+            ok = len(u64s) == 1 and set(vs.params) == u64s and not vs.binops()
         if ok:
             run.ok(rid, "until_with/value", "pushes its own timestamp argument")
         else:
